@@ -39,3 +39,59 @@ def bulk_thin_large(case, tag, event):
     return False
 
 KNOWN_CLASSES = {"bulk_thin_large": bulk_thin_large}
+
+import subprocess, os
+HARNESS = "/verif/.cache/target/debug/spade-verif-harness"
+
+def _run(case):
+    path = "/verif/.cache/known_probe.case"
+    with open(path, "w") as f:
+        f.write(case.text())
+    try:
+        return subprocess.run([HARNESS, path, "4000"], capture_output=True, text=True, timeout=120).stdout
+    except Exception:
+        return ""
+
+def _states(out):
+    """yields (op line tokens, result tokens, vertex list [(xbits, ybits, data)]) per step"""
+    op, res, verts = None, None, []
+    steps = []
+    for line in out.splitlines():
+        t = line.split()
+        if not t:
+            continue
+        if t[0] == "O":
+            op, res = t, None
+        elif t[0] == "R":
+            res = t
+            steps.append([op, res, None])
+        elif t[0] == "S" and len(t) > 8 and steps:
+            nv = int(t[1])
+            i = t.index("V") + 1
+            vs = [(t[i + 4 * k], t[i + 4 * k + 1], t[i + 4 * k + 2]) for k in range(nv)]
+            steps[-1][2] = vs
+    return steps
+
+def split_repeated(case, tag, event):
+    """add_constraint_and_split between two positions that were already connected by an earlier add_constraint_and_split which
+    created a (rounded) split vertex: the second call re-splits next to the old split vertex and constraints get lost"""
+    if tag not in ("split", "ncons", "noncross", "segspec", "geo", "wf", "cdtlocal"):
+        return False
+    steps = _states(_run(case))
+    seen = []          # (frozenset of end point positions, created_split_vertex)
+    verts = []
+    for op, res, vs in steps:
+        if op and len(op) > 4 and op[2] == "split" and op[3].startswith("V") and verts:
+            a, b = int(op[3][1:]), int(op[4][1:])
+            if a < len(verts) and b < len(verts):
+                key = frozenset([verts[a][:2], verts[b][:2]])
+                created = vs is not None and any(v[2] == "888000" for v in vs[len(verts):])
+                for (k2, c2) in seen:
+                    if k2 == key and c2:
+                        return True
+                seen.append((key, created))
+        if vs is not None:
+            verts = vs
+    return False
+
+KNOWN_CLASSES["split_repeated"] = split_repeated
